@@ -69,6 +69,26 @@ class OutsideSubset(Exception):
         self.node = node
 
 
+def spec(fn, *args):
+    """Evaluate a contract callable (pre / post / invariant / step / result).
+    A contract that cannot be evaluated on the code it is applied to (it
+    names a local, a field or a value shape the code does not have) yields an
+    obligation that is not discharged - never a crash of the checker."""
+    try:
+        r = fn(*args)
+        if r is not None and not isinstance(r, (list, tuple)) and hasattr(
+                r, '__iter__') and not hasattr(r, 'sort'):
+            r = list(r)
+        return r
+    except (OutsideSubset, Raised):
+        raise
+    except Exception as e:      # noqa
+        if type(e).__name__ == 'NeedSplit':
+            raise
+        raise OutsideSubset('the contract cannot be evaluated on this code '
+                            '({}: {})'.format(type(e).__name__, str(e)[:120]))
+
+
 class Raised(Exception):
     """A Python exception raised by the code under analysis on this path."""
 
